@@ -197,8 +197,43 @@ async fn sequence(ty: &str, len: usize, seed: u64) -> (Vec<(String, String)>, Ve
                     if model.len() > 1 {
                         count!("unbind_with_other_binds_alive");
                     }
+                    // clients whose connect races the unbind: connected (silent) a moment before
+                    let mut racing: Vec<Raw> = Vec::new();
+                    if r.chance(1, 2) && !ep.contains("localhost") {
+                        for _ in 0..r.range(1, 12) {
+                            if let Ok(c) = Raw::connect_blocking(&ep) {
+                                racing.push(c);
+                            }
+                        }
+                        count!("unbinds_raced_by_connects");
+                    }
                     match sock.unbind(&ep).await {
                         Ok(()) => {
+                            if !racing.is_empty() {
+                                // whatever was still being set up when unbind was called is long
+                                // gone now; nobody becomes a peer through this endpoint any more
+                                tokio::time::sleep(Duration::from_millis(50)).await;
+                                let hs = rc::handshake(peer_type_for(ty), Some(b"racer"));
+                                let mut admitted = 0;
+                                let n = racing.len();
+                                for mut c in racing.drain(..) {
+                                    if c.write_all(&hs).await.is_err() {
+                                        continue;
+                                    }
+                                    let mut acc = Vec::new();
+                                    // greeting (64) + a READY frame = admitted
+                                    if c.read_exact_or(&mut acc, 64 + 2, Duration::from_millis(300)).await.is_ok() {
+                                        admitted += 1;
+                                    }
+                                }
+                                if admitted > 0 {
+                                    viol.push((
+                                        "C18/peer-admitted-through-unbound-endpoint".into(),
+                                        format!("{n} clients had connected to {ep} (silent) just before unbind; 50 ms after unbind returned they sent their handshake and {admitted} of them were answered with READY"),
+                                    ));
+                                    break 'ops;
+                                }
+                            }
                             model.remove(&ep);
                             removed.push(ep.clone());
                             // by the time it returns
@@ -282,7 +317,28 @@ async fn sequence(ty: &str, len: usize, seed: u64) -> (Vec<(String, String)>, Ve
                 }
             }
             7 => {
-                let unknown = if r.chance(1, 2) || removed.is_empty() { "tcp://127.0.0.1:1".to_string() } else { removed[r.below(removed.len())].clone() };
+                // never bound / bound earlier and unbound / another host spelling carrying the
+                // port of a live listener (a port number alone identifies no bind)
+                let live_tcp: Vec<String> = model.iter().filter(|e| e.starts_with("tcp://")).cloned().collect();
+                let unknown = match r.below(3) {
+                    0 if !live_tcp.is_empty() => {
+                        let ep = &live_tcp[r.below(live_tcp.len())];
+                        let port = port_of(ep).unwrap_or("1").to_string();
+                        let mut cands: Vec<String> = ["127.0.0.1", "127.0.0.2", "localhost", "[::1]", "0.0.0.0", "[::]"]
+                            .iter()
+                            .map(|h| format!("tcp://{h}:{port}"))
+                            .filter(|c| !model.contains(c))
+                            .collect();
+                        cands.retain(|c| c != ep);
+                        count!("op/unbind-other-host-same-port");
+                        cands[r.below(cands.len())].clone()
+                    }
+                    1 if !removed.is_empty() => removed[r.below(removed.len())].clone(),
+                    _ => "tcp://127.0.0.1:1".to_string(),
+                };
+                if model.contains(&unknown) {
+                    continue;
+                }
                 log.push(format!("unbind-unknown({unknown})"));
                 count!("op/unbind-unknown");
                 match sock.unbind(&unknown).await {
@@ -593,6 +649,8 @@ impl Prop for C18 {
             ("op/connect-and-exchange", 20),
             ("op/stalled-client", 10),
             ("op/rebind-same-endpoint", 10),
+            ("op/unbind-other-host-same-port", 10),
+            ("unbinds_raced_by_connects", 10),
             ("accept_error_episodes", 12),
             ("unbind_with_other_binds_alive", 10),
             ("endpoints_probed", 100),
